@@ -187,7 +187,7 @@ pub fn gen_program(r: &mut Rng, max_q: usize, with_nonunitary: bool) -> Program 
         env.qregs.push(("q".into(), 2));
     }
     // gate definitions
-    let ngates = r.below(3);
+    let ngates = r.below(4);
     let mut gnames: Vec<&str> = GNAMES.to_vec();
     for _ in 0..ngates {
         let gname = gnames.swap_remove(r.below(gnames.len())).to_string();
@@ -198,12 +198,21 @@ pub fn gen_program(r: &mut Rng, max_q: usize, with_nonunitary: bool) -> Program 
         let mut body = Vec::new();
         for _ in 0..r.range(1, 4) {
             // nested call of an earlier gate, or a built-in
-            if !env.gates.is_empty() && r.chance(1, 3) {
+            if !env.gates.is_empty() && r.chance(1, 2) {
                 let (gn, gp, gq) = r.pick(&env.gates).clone();
                 if let Some(qs) = pick_distinct(r, &formals, gq) {
                     let ps: Vec<String> = (0..gp).map(|_| gen_expr(r, &params, 1).0).collect();
                     let pstr = if gp == 0 { String::new() } else { format!("({})", ps.join(",")) };
                     body.push(format!("{gn}{pstr} {};", qs.join(",")));
+                    // the same gate once more, with other actual parameters / qubits (each expansion
+                    // must bind its own actuals)
+                    if r.chance(1, 2) {
+                        if let Some(qs2) = pick_distinct(r, &formals, gq) {
+                            let ps2: Vec<String> = (0..gp).map(|_| gen_expr(r, &params, 1).0).collect();
+                            let pstr2 = if gp == 0 { String::new() } else { format!("({})", ps2.join(",")) };
+                            body.push(format!("{gn}{pstr2} {};", qs2.join(",")));
+                        }
+                    }
                     continue;
                 }
             }
